@@ -109,4 +109,20 @@ def Encoding.decode (e : Encoding) (bs : List UInt8) : Str :=
 /-- UTF-8 encoding of a string (used by the driver's output and by the encoder model). -/
 def utf8Encode (s : Str) : List UInt8 := s.flatMap String.utf8EncodeChar
 
+/-- UTF-16 code units of one character (`char::encode_utf16`). -/
+def charUnits (c : Char) : List Nat :=
+  if c.toNat < 0x10000 then [c.toNat]
+  else [0xD800 + (c.toNat - 0x10000) / 1024, 0xDC00 + (c.toNat - 0x10000) % 1024]
+
+/-- `str::encode_utf16`. -/
+def utf16Units (s : Str) : List Nat := s.flatMap charUnits
+
+/-- `u16::to_{le,be}_bytes`. -/
+def unitBytes (le : Bool) (u : Nat) : List UInt8 :=
+  if le then [UInt8.ofNat (u % 256), UInt8.ofNat (u / 256)]
+  else [UInt8.ofNat (u / 256), UInt8.ofNat (u % 256)]
+
+/-- UTF-16 encoding of a text without BOM (used by the driver's `enc4` request and by C10). -/
+def encodeUtf16 (le : Bool) (s : Str) : List UInt8 := (utf16Units s).flatMap (unitBytes le)
+
 end Rosu
